@@ -27,6 +27,11 @@ func sliceArrayOperator(d *dataTreeNavigator, context Context, expressionNode *E
 	for el := context.MatchingNodes.Front(); el != nil; el = el.Next() {
 		lhsNode := el.Value.(*CandidateNode)
 
+		if lhsNode.Kind != SequenceNode && lhsNode.Tag != "!!null" {
+			// the content of a map is its keys and values alternating, a scalar has none: there is nothing to slice
+			return Context{}, fmt.Errorf("cannot slice %v (%v), only arrays can be sliced", lhsNode.Tag, lhsNode.GetNicePath())
+		}
+
 		firstNumber, err := getSliceNumber(d, context, lhsNode, expressionNode.LHS)
 
 		if err != nil {
